@@ -45,6 +45,34 @@ theorem request_info_messages (mw : S_ratelimitmw_Middleware) (old : S_agd_Reque
   intro ri tr h
   cases e <;> simp [newRequestInfo] at h <;> obtain ⟨h1, _⟩ := h <;> subst h1 <;> rfl
 
+/-- On EVERY branch — no device, a device whose profile's constructor is built, a device whose profile's
+constructor cannot be built (`NewConstructor` returns an error, which is only collected) — the request info
+does not depend on what the previous user left in the pooled object: two pooled objects that agree on the
+pool-constant fields (filtering group, server group, server name, protocol: set by `New` of the pool) give the
+same result and the same trace.  (The seeded change `messages-constructor-kept-on-ctor-error` keeps
+`old.Messages` on the third branch.) -/
+theorem request_info_pool_independent (mw : S_ratelimitmw_Middleware) (old₁ old₂ : S_agd_RequestInfo) (u2 u3 : Unit)
+    (host name : String) (qt qc : Int) (rid : Unit × Bool) (u9 : Unit) (dev : AbsPtr)
+    (dr : Option S_agd_DeviceResultOK × Bool) (cl : Option S_dnsmsg_Cloner)
+    (nc : Option S_dnsmsg_Constructor × Option String)
+    (hc : old₁.FilteringGroup = old₂.FilteringGroup ∧ old₁.ServerGroup = old₂.ServerGroup ∧ old₁.Server = old₂.Server ∧
+      old₁.Proto = old₂.Proto) :
+    newRequestInfo mw (some old₁) u2 u3 host name qt qc rid u9 dev dr cl nc =
+      newRequestInfo mw (some old₂) u2 u3 host name qt qc rid u9 dev dr cl nc := by
+  obtain ⟨h1, h2, h3, h4⟩ := hc
+  obtain ⟨r, ok⟩ := dr
+  obtain ⟨c, e⟩ := nc
+  cases ok <;> cases r <;> cases e <;> simp [newRequestInfo, h1, h2, h3, h4]
+
+/-- Non-vacuity: a pooled object that carries the constructor, location and host of another request, and a
+profile whose constructor cannot be built: the result has the server's constructor. -/
+example (mw : S_ratelimitmw_Middleware) (old : S_agd_RequestInfo) (r : S_agd_DeviceResultOK) (p : S_agd_Profile)
+    (hp : r.Profile = some p) (stale : Option S_dnsmsg_Constructor) :
+    (newRequestInfo mw (some { old with Messages := stale, Host := "other.example" }) () () "own.example" "own.example." 1 1
+      ((), true) () default (some r, true) none (none, some "negative ttl")).map (fun x => x.1.map (fun ri => (ri.Messages, ri.Host))) =
+      some (some (mw.messages, "own.example")) := by
+  simp [newRequestInfo, hp]
+
 /-! ## Round 3: the pooled `filter.Request` / `filter.Response`, and what the ECS cache keeps -/
 
 /-- `filter.Request` out of its pool: whatever object `Get` returned, ALL seven fields are written, once
@@ -140,6 +168,7 @@ end Agd.Tie.TrC07
 #print axioms Agd.Tie.TrC07.filtering_context_reset
 #print axioms Agd.Tie.TrC07.request_info_reset
 #print axioms Agd.Tie.TrC07.request_info_messages
+#print axioms Agd.Tie.TrC07.request_info_pool_independent
 #print axioms Agd.Tie.TrC07.flt_request_filled
 #print axioms Agd.Tie.TrC07.flt_response_filled
 #print axioms Agd.Tie.TrC07.flt_put_drops_message
